@@ -33,6 +33,14 @@ POOL = [
     ('rterror', {'items': [{'e': ['len', ['a', 5]]}]}, False),
 ]
 PARSE_ERRORS = ['select a1 where a1 = 1', 'select', 'select a1 join zz on a1 == b1']
+CONTEXT_VARIANTS = [
+    ('ctx-named-1', 'select a.name, a.id where a.id != "k2"', [['k1', 'ann', 'p'], ['k2', 'bob', 'q'], ['k3', 'cid', 'r']], ['id', 'name', 'team'], None, None),
+    ('ctx-named-2', 'select a.name, a.id where a.id != "k2"', [['eve', 'qa', 'k2'], ['fay', 'qa', 'k7']], ['name', 'team', 'id'], None, None),
+    ('ctx-join-1', 'select a1, b.v join b on a1 == b.k', [['k1', 'x'], ['k2', 'y']], None, [['k1', 'B1'], ['k2', 'B2']], ['k', 'v']),
+    ('ctx-join-2', 'select a1, b.v join b on a1 == b.k', [['k1', 'x'], ['k2', 'y']], None, [['B1', 'k1'], ['B2', 'k2']], ['v', 'k']),
+    ('ctx-update-1', 'update set a.name = a.name + "!"', [['k1', 'ann']], ['id', 'name'], None, None),
+    ('ctx-update-2', 'update set a.name = a.name + "!"', [['ann', 'k1']], ['name', 'id'], None, None),
+]
 TABLES = {2: [['k1', 'x;y'], ['k2', 'z']], 3: [['k1', 'x;y'], ['k2', 'z'], ['k1', 'w;v;u']]}
 BTABLE = [['k1', 'B1'], ['k1', 'B2']]
 
@@ -68,8 +76,8 @@ class Sched(object):
             self.cv.notify_all()
 
 class It(rbql_engine.TableIterator):
-    def __init__(self, table, sched, tid):
-        rbql_engine.TableIterator.__init__(self, table); self.sched = sched; self.tid = tid
+    def __init__(self, table, sched, tid, header=None):
+        rbql_engine.TableIterator.__init__(self, table, header); self.sched = sched; self.tid = tid
     def get_record(self):
         if self.sched is not None: self.sched.yield_point(self.tid)
         return rbql_engine.TableIterator.get_record(self)
@@ -83,9 +91,9 @@ class Wr(rbql_engine.RBQLOutputWriter):
         if self.sched is not None: self.sched.yield_point(self.tid)
         self.finished += 1
 
-def run_one(text, table, btable, sched=None, tid=0):
-    it = It([r[:] for r in table], sched, tid); w = Wr(sched, tid); warnings = []
-    reg = None if btable is None else rbql_engine.ListTableRegistry([rbql_engine.ListTableInfo('b', [r[:] for r in btable], None)])
+def run_one(text, table, btable, sched=None, tid=0, header=None, bheader=None):
+    it = It([r[:] for r in table], sched, tid, header); w = Wr(sched, tid); warnings = []
+    reg = None if btable is None else rbql_engine.ListTableRegistry([rbql_engine.ListTableInfo('b', [r[:] for r in btable], bheader)])
     try:
         rbql_engine.query(text, it, w, warnings, reg)
         res = {'rows': canon(w.rows), 'finished': w.finished, 'warnings': warnings}
@@ -95,7 +103,7 @@ def run_one(text, table, btable, sched=None, tid=0):
     return res
 
 if mode == 'solo':
-    text, table, btable = arg
+    text, table, btable, header, bheader = arg
     it = It(table, None, 0)
     # count the yield points of a solo run
     class Count(object):
@@ -103,7 +111,7 @@ if mode == 'solo':
         def yield_point(self, tid): self.n += 1
         def finish(self, tid): pass
     c = Count()
-    r = run_one(text, table, btable, c, 0)
+    r = run_one(text, table, btable, c, 0, header, bheader)
     r['steps'] = c.n
     print(json.dumps(r))
 elif mode == 'interleave':
@@ -118,7 +126,7 @@ elif mode == 'interleave':
         s = Sched(sched_list)
         out = [None, None]
         def th(i, q):
-            out[i] = run_one(q['text'], q['table'], q['btable'], s, i)
+            out[i] = run_one(q['text'], q['table'], q['btable'], s, i, q.get('header'), q.get('bheader'))
         t0 = threading.Thread(target=th, args=(0, qa)); t1 = threading.Thread(target=th, args=(1, qb))
         t0.start(); t1.start(); t0.join(60); t1.join(60)
         switches = sum(1 for i in range(1, len(sched_list)) if sched_list[i] != sched_list[i - 1])
@@ -133,15 +141,19 @@ elif mode == 'interleave':
 elif mode == 'history':
     pool, maxlen = arg
     bad = []; n = 0
+    executed = []      # every query this process has run so far, in order: the true history of each comparison
     for L in range(1, maxlen + 1):
         for seq in itertools.product(range(len(pool)), repeat=L):
             n += 1
             for pos, qi in enumerate(seq):
                 q = pool[qi]
-                got = run_one(q['text'], q['table'], q['btable'])
+                got = run_one(q['text'], q['table'], q['btable'], None, 0, q.get('header'), q.get('bheader'))
                 want = {k: v for k, v in q['solo'].items() if k != 'steps'}
                 if got != want and len(bad) < 3:
-                    bad.append({'sequence': [pool[j]['text'] for j in seq], 'position': pos, 'query': q['text'], 'fresh': want, 'in_sequence': got})
+                    bad.append({'sequence': [pool[j]['text'] for j in seq], 'position': pos, 'query': q['text'], 'table': q['table'], 'header': q.get('header'),
+                                'btable': q['btable'], 'bheader': q.get('bheader'), 'fresh': want, 'in_sequence': got,
+                                'queries_run_before_in_this_process (last 12: name, header, bheader)': [[pool[j]['name'], pool[j].get('header'), pool[j].get('bheader')] for j in executed[-12:]]})
+                executed.append(qi)
     print(json.dumps({'n': n, 'bad': bad}))
 '''
 
@@ -183,9 +195,14 @@ def run(res, tier, seed):
         queries.append({'name': name, 'text': text, 'table': table, 'btable': BTABLE if needs_b else None, 'abstract': q})
     for t in PARSE_ERRORS:
         queries.append({'name': 'parse-error', 'text': t, 'table': table, 'btable': None, 'abstract': None})
+    # the SAME query text in different contexts (column names mapping to other positions, another join table header,
+    # another record width): whatever a run derives from its context must not survive into the next run
+    ctx_table = [['k1', 'x;y', 'p'], ['k2', 'z', 'q']]
+    for name, text, tab, hdr, btab, bhdr in CONTEXT_VARIANTS:
+        queries.append({'name': name, 'text': text, 'table': tab, 'btable': btab, 'abstract': None, 'header': hdr, 'bheader': bhdr})
     # solo runs, each in a fresh interpreter
     with ThreadPoolExecutor(max_workers=common.NPROC) as ex:
-        solos = list(ex.map(lambda q: impl('solo', [q['text'], q['table'], q['btable']]), queries))
+        solos = list(ex.map(lambda q: impl('solo', [q['text'], q['table'], q['btable'], q.get('header'), q.get('bheader')]), queries))
     for q, s in zip(queries, solos):
         q['solo'] = s
         q['steps'] = s['steps']
@@ -222,7 +239,16 @@ def run(res, tier, seed):
     for k in range(h['n']):
         res.nontrivial.add(('history', k))
     res.exhaustive['all sequences of <= %d queries from a pool of %d' % (maxlen, len(hist_pool))] = True
-    for bd in h['bad'][:2]:
+    # same text / different context histories (plus two ordinary queries and an error in between)
+    ctx_pool = [q for q in queries if q['name'].startswith('ctx-')] + [q for q in queries if q['name'] in ('select', 'rterror')]
+    ctx_len = 2 if tier == 'quick' else 3
+    h2 = impl('history', [ctx_pool, ctx_len], 3000)
+    res.evaluations += h2['n']
+    res.count('context_histories', h2['n'])
+    for k in range(h2['n']):
+        res.nontrivial.add(('ctx-history', k))
+    res.exhaustive['all sequences of <= %d queries from a pool of %d same-text/different-context queries' % (ctx_len, len(ctx_pool))] = True
+    for bd in h['bad'][:2] + h2['bad'][:2]:
         res.violations.append({'property': 'C16', 'impl': 'py', 'why': 'a query run after other queries gave a result different from the fresh-interpreter run', 'detail': bd,
                                'case_key': 'C16|history|%s|%d' % (json.dumps(bd['sequence']), bd['position'])})
 
